@@ -1729,3 +1729,145 @@ func c07SpaceAgrees(c *Ctx, p *Prog) {
 			fmt.Sprintf("for text beginning with the byte %q the space recogniser answers %s, but unicode.IsSpace — which is what ends a bare word — says space=%v: a byte that ends a word and is not skipped leaves the tokenizer at the same place for ever (a projection containing \\v or \\f never finishes parsing)", rune(sample.b), map[bool]string{true: "\"not a space\"", false: "\"a space\""}[sample.space], sample.space))
 	}
 }
+
+// c03SignAlone (C03/R12): a sign is not a number: wherever Atoi's own digit loop is preceded by stripping a
+// leading sign by re-slicing its text from 1, the length of what remains is tested, and the empty remainder returns an
+// error.
+func c03SignAlone(c *Ctx, p *Prog) {
+	const R = "C03/R12"
+	n := 0
+	// (ParseInt strips the sign too, but hands the remainder to ParseUint, which refuses the empty text itself)
+	for _, name := range []string{"Atoi"} {
+		fn := p.Fn("benchfmt/internal/bytesconv", name)
+		if fn == nil {
+			continue
+		}
+		eachInstr(fn, func(_ *ssa.BasicBlock, in ssa.Instruction) {
+			sl, ok := in.(*ssa.Slice)
+			if !ok || sl.High != nil || sl.Low == nil {
+				return
+			}
+			if k, ok := constInt(sl.Low); !ok || k != 1 {
+				return
+			}
+			if _, isParam := sl.X.(*ssa.Parameter); !isParam {
+				return
+			}
+			n++
+			// len(rest) compared with a constant, one branch returning a non-nil error
+			tested := false
+			var uses func(v ssa.Value, d int)
+			uses = func(v ssa.Value, d int) {
+				if d > 3 {
+					return
+				}
+				for _, r := range *v.Referrers() {
+					switch x := r.(type) {
+					case *ssa.Phi:
+						uses(x, d+1)
+					case *ssa.Call:
+						bi, ok := x.Call.Value.(*ssa.Builtin)
+						if !ok || bi.Name() != "len" {
+							continue
+						}
+						for _, r2 := range *x.Referrers() {
+							bo, ok := r2.(*ssa.BinOp)
+							if !ok {
+								continue
+							}
+							if _, isK := constInt(bo.Y); !isK {
+								if _, isK := constInt(bo.X); !isK {
+									continue
+								}
+							}
+							for _, r3 := range *bo.Referrers() {
+								ifi, ok := r3.(*ssa.If)
+								if !ok {
+									continue
+								}
+								for _, s := range ifi.Block().Succs {
+									if ret, ok := s.Instrs[len(s.Instrs)-1].(*ssa.Return); ok && len(ret.Results) == 2 {
+										if k, isK := ret.Results[1].(*ssa.Const); !isK || !k.IsNil() {
+											tested = true
+										}
+									}
+								}
+							}
+						}
+					}
+				}
+			}
+			uses(sl, 0)
+			c.Check(tested, R, fmt.Sprintf("%s:sign stripped#%d", name, n), p.pos(sl.Pos()), "the remainder's length is tested and the empty remainder is an error",
+				"after the sign is stripped the length of what remains is not tested (with an error return): the texts \"-\" and \"+\" then read as the number 0 instead of being a syntax error, so a benchmark line whose iteration count is a bare sign is accepted")
+		})
+	}
+	c.Floor(R, "places where a leading sign is stripped", n, 1)
+}
+
+// c03PointPosition (C03/R13): the decimal point sits after all the digits read so far, kept or dropped: in readFloat
+// the variable holding the point's position (dp) is assigned, inside the scanning loop, only the count of all digits
+// (nd) — not the count of digits that still fitted into the mantissa (ndMant). Variables are found by their names in
+// the SSA form; if they are not there any more the rule makes no claim (and says so).
+func c03PointPosition(c *Ctx, p *Prog) {
+	const R = "C03/R13"
+	fn := p.Fn("benchfmt/internal/bytesconv", "readFloat")
+	if fn == nil {
+		c.Undecided(R, "anchor:readFloat", "", "not found")
+		return
+	}
+	site := p.pos(fn.Pos())
+	for _, lp := range naturalLoops(fn) {
+		var dp, nd *ssa.Phi
+		for _, in := range lp.Header.Instrs {
+			if phi, ok := in.(*ssa.Phi); ok {
+				switch phi.Comment {
+				case "dp":
+					dp = phi
+				case "nd":
+					nd = phi
+				}
+			}
+		}
+		if dp == nil || nd == nil {
+			continue
+		}
+		bad := ""
+		seen := map[ssa.Value]bool{}
+		var leaf func(e ssa.Value)
+		leaf = func(e ssa.Value) {
+			if seen[e] || e == ssa.Value(dp) || e == ssa.Value(nd) {
+				return
+			}
+			seen[e] = true
+			if ph, ok := e.(*ssa.Phi); ok && ph.Block() != lp.Header && lp.Blocks[ph.Block()] {
+				// a merge inside the iteration
+				for _, x := range ph.Edges {
+					leaf(x)
+				}
+				return
+			}
+			// a leading zero after the point moves the position by one: dp ± constant
+			if bo, ok := e.(*ssa.BinOp); ok && (bo.Op == token.ADD || bo.Op == token.SUB) {
+				if _, isK := constInt(bo.Y); isK {
+					leaf(bo.X)
+					return
+				}
+			}
+			bad = valStr(e)
+			if ph, ok := e.(*ssa.Phi); ok && ph.Comment != "" {
+				bad = ph.Comment
+			}
+		}
+		for i, e := range dp.Edges {
+			if lp.Blocks[lp.Header.Preds[i]] {
+				leaf(e)
+			}
+		}
+		c.Check(bad == "", R, "readFloat:point position", site, "at the radix point dp becomes nd, the count of all digits read",
+			"at the radix point the position is taken from "+bad+" instead of the count of all digits read: once more digits were read than the mantissa keeps (17 or more hexadecimal digits before the point) the value is too small by a power of the base")
+		return
+	}
+	c.OK(R, "readFloat:point position", site, "the variables dp/nd are not named so any more: no claim")
+	c.Note("C03/R13 makes no claim: readFloat no longer has loop variables named dp and nd")
+}
